@@ -3,8 +3,11 @@
 
 mod c03;
 mod c04;
+mod c07;
+mod c11;
 mod c12;
 mod c15;
+mod c16;
 mod c17;
 mod certs;
 mod net;
@@ -14,6 +17,10 @@ use vcommon::report::machinery_failure;
 
 fn main() {
     let args: Vec<String> = std::env::args().collect();
+    if args.len() >= 3 && args[1] == "--server-child" {
+        c16::child_main(&args[2]);
+        return;
+    }
     if args.len() < 3 {
         eprintln!("usage: e2elab <C03|C04|C07|C11|C12|C15|C16|C17> <quick|thorough|replay> [file]");
         std::process::exit(2);
@@ -38,8 +45,11 @@ fn main() {
             match id.as_str() {
                 "C03" => c03::run(&run_tier, replaying).await,
                 "C04" => c04::run(&run_tier, replaying).await,
+                "C07" => c07::run(&run_tier, replaying).await,
+                "C11" => c11::run(&run_tier, replaying).await,
                 "C12" => c12::run(&run_tier, replaying).await,
                 "C15" => c15::run(&run_tier, replaying).await,
+                "C16" => c16::run(&run_tier, replaying).await,
                 "C17" => c17::run(&run_tier, replaying).await,
                 _ => machinery_failure("e2elab serves C03 C04 C07 C11 C12 C15 C16 C17"),
             }
